@@ -6,6 +6,7 @@ package main
 
 import (
 	"fmt"
+	"go/types"
 	"sort"
 	"strings"
 
@@ -60,6 +61,8 @@ func guardSitesOf(p *Prog, fn *ssa.Function) []guardSite {
 				if len(x.Results) == 1 {
 					if bv, isC := constBool(x.Results[0]); isC {
 						name = fmt.Sprintf("return:%v", bv)
+					} else if b, isB := x.Results[0].Type().Underlying().(*types.Basic); isB && b.Kind() == types.Bool {
+						name = "return:" + descValue(x.Results[0], 0)
 					}
 				}
 			}
